@@ -9,4 +9,4 @@ trap 'rm -rf "$scratch"' EXIT
 mkdir -p "$scratch/repo"
 cp -r /repo/job_shop_lib /repo/tests /repo/pyproject.toml "$scratch/repo/" 2>/dev/null
 ( cd "$scratch/repo" && git init -q . && git apply --whitespace=nowarn "$patch" ) || { echo "PATCH FAILED: $patch"; exit 99; }
-JSVERIF_REPO="$scratch/repo" PYTHONPATH="$scratch/repo" "$@"
+JSVERIF_EVIDENCE_DIR="$scratch/evidence" JSVERIF_REPO="$scratch/repo" PYTHONPATH="$scratch/repo" "$@"
